@@ -37,8 +37,12 @@ model_class('Engine', fields={
 model_class('_StepGraph', fields={'_sequential_steps': 'Seq[Path]'})
 
 # what Engine.apply_update may change besides the scheduler's own maps (see specs/c_apply.py)
-APPLY_FRAME = ['self.processes', 'self.steps', 'self.topology', 'self.flow', 'Store.value', 'Store.inner', 'Store.outer',
+APPLY_FRAME = ['self.front', 'self.processes', 'self.steps', 'self.topology', 'self.flow', 'Store.value', 'Store.inner', 'Store.outer',
                'Store.topology', 'Store.g_report', '_StepGraph._sequential_steps', '_StepGraph.g_deps', '_StepGraph.g_seq']
+
+# structural updates only ever REMOVE front entries (those of deleted processes); what stays is untouched
+FRONT_SHRINKS = ("forall(lambda p: implies(has(self.front, p), has(old(self.front), p) and "
+                 "lookup(self.front, p) == lookup(old(self.front), p)))")
 
 contract(E + 'empty_front', props=['C01', 'C02', 'C10'],
          types={'t': 'Real', 'ret': 'Front'},
@@ -151,10 +155,10 @@ contract(E + 'Engine.run_steps', props=['C05', 'C04', 'C07', 'C06'],
          alloc=True,
          ensures=['self.g_views_valid',                                      # views are current again when the phase ends
                   'self.g_steps_run == old(self.g_steps_run) + 1',
-                  "old_objects_unchanged('Defer')", NEW_NOT_ISSUED],                          # only tokens created in this phase are touched
+                  "old_objects_unchanged('Defer')", NEW_NOT_ISSUED, FRONT_SHRINKS],          # only tokens created in this phase are touched
          loops={
              0: {'invariant': ['self.g_views_valid', 'self.g_steps_run == old(self.g_steps_run) + 1',
-                               "old_objects_unchanged('Defer')", NEW_NOT_ISSUED]},
+                               "old_objects_unchanged('Defer')", NEW_NOT_ISSUED, FRONT_SHRINKS]},
              # computing a layer: no update is applied in between (g_version frozen): all steps of the layer see one state
              1: {'invariant': ['self.g_views_valid', 'self.g_version == entry(self.g_version)',
                                'self.g_steps_run == old(self.g_steps_run) + 1', "old_objects_unchanged('Defer')",
@@ -162,7 +166,7 @@ contract(E + 'Engine.run_steps', props=['C05', 'C04', 'C07', 'C06'],
                                "forall_range(0, len(deferred_updates), lambda i: allocated(%s) and (%s.g_empty or "
                                "(%s.g_live and not %s.g_consumed)))" % ((DU % 'i',) * 4),
                                "forall_range(0, len(deferred_updates), lambda i: forall_range(0, i, lambda j: %s != %s))"
-                               % (DU % 'i', DU % 'j'), NEW_NOT_ISSUED]},
+                               % (DU % 'i', DU % 'j'), NEW_NOT_ISSUED, FRONT_SHRINKS]},
              # applying the layer: each deferred update is collected exactly once
              2: {'invariant': ['self.g_steps_run == old(self.g_steps_run) + 1', "old_objects_unchanged('Defer')",
                                "forall_range(0, len(deferred_updates), lambda i: fresh(%s))" % (DU % 'i'),
@@ -170,7 +174,7 @@ contract(E + 'Engine.run_steps', props=['C05', 'C04', 'C07', 'C06'],
                                "forall_range(_i, len(deferred_updates), lambda i: allocated(%s) and (%s.g_empty or "
                                "(%s.g_live and not %s.g_consumed)))" % ((DU % 'i',) * 4),
                                "forall_range(0, len(deferred_updates), lambda i: forall_range(0, i, lambda j: %s != %s))"
-                               % (DU % 'i', DU % 'j'), NEW_NOT_ISSUED]},
+                               % (DU % 'i', DU % 'j'), NEW_NOT_ISSUED, FRONT_SHRINKS]},
          },
          ghost={'self.state.build_topology_views()': {'after': ['self.g_views_valid = True']},
                 'layers = self._step_graph.get_execution_layers()': {'after': ['self.g_steps_run = self.g_steps_run + 1']}})
@@ -193,9 +197,10 @@ contract(E + 'Engine._send_updates', props=['C01', 'C05', 'C12'],
                   "forall(lambda d: implies(old(allocated(d)) and not exists_range(0, len(update_tuples), lambda i: d == %s), "
                   "d.g_consumed == old(d.g_consumed) and d.g_at == old(d.g_at)))" % (TOK % 'i'),
                   "old_objects_unchanged('Defer', 'g_issued', 'g_empty', 'g_path', 'g_dt', 'g_start', 'g_due', 'g_live')",
-                  NEW_NOT_ISSUED,
+                  NEW_NOT_ISSUED, FRONT_SHRINKS,
                   'self.g_steps_run == old(self.g_steps_run) + 1'],
          loops={0: {'invariant': [
+             FRONT_SHRINKS,
              "forall_range(0, _i, lambda i: %s.g_consumed and %s.g_at == self.global_time)" % ((TOK % 'i',) * 2),
              "forall_range(_i, len(update_tuples), lambda i: %s.g_consumed == old(%s.g_consumed))" % ((TOK % 'i',) * 2),
              "forall(lambda d: implies(not exists_range(0, len(update_tuples), lambda i: d == %s), "
@@ -218,8 +223,12 @@ contract(E + 'Engine._delete_path', props=['C10'],
          requires=['dicts_along(self.processes, deletion)', 'dicts_along(self.steps, deletion)',
                    'dicts_along(self.topology, deletion)', 'dicts_along(self.flow, deletion)'],
          modifies=['self.processes', 'self.steps', 'self.topology', 'self.flow', 'self.process_paths', 'self._step_paths',
-                   '_StepGraph._sequential_steps'],
+                   '_StepGraph._sequential_steps', 'self.front'],
          ensures=[
+             # the fronts of the deleted processes are forgotten at once (a process created later at such a path starts its
+             # own front); every other front entry is untouched
+             "forall(lambda p: has(self.front, p) == (has(old(self.front), p) and not (has(old(self.process_paths), p) and below(deletion, p))))",
+             "forall(lambda p: implies(has(self.front, p), lookup(self.front, p) == lookup(old(self.front), p)))",
              # the published composite loses exactly the entry at the deleted path
              'self.processes == tdel(old(self.processes), deletion)', 'self.steps == tdel(old(self.steps), deletion)',
              'self.topology == tdel(old(self.topology), deletion)', 'self.flow == tdel(old(self.flow), deletion)',
@@ -234,7 +243,9 @@ contract(E + 'Engine._delete_path', props=['C10'],
          loops={
              0: {'invariant': [
                  "forall(lambda p: has(self.process_paths, p) == (has(entry(self.process_paths), p) and not ((p in _done) and %s)))" % PREFIX('deletion', 'p'),
-                 "forall(lambda p: implies(has(self.process_paths, p), lookup(self.process_paths, p) == lookup(entry(self.process_paths), p)))"]},
+                 "forall(lambda p: implies(has(self.process_paths, p), lookup(self.process_paths, p) == lookup(entry(self.process_paths), p)))",
+                 "forall(lambda p: has(self.front, p) == (has(entry(self.front), p) and not (has(entry(self.process_paths), p) and (p in _done) and %s)))" % PREFIX('deletion', 'p'),
+                 "forall(lambda p: implies(has(self.front, p), lookup(self.front, p) == lookup(entry(self.front), p)))"]},
              1: {'invariant': [
                  "forall(lambda p: has(self._step_paths, p) == (has(entry(self._step_paths), p) and not ((p in _done) and %s)))" % PREFIX('deletion', 'p'),
                  "forall(lambda p: implies(has(self._step_paths, p), lookup(self._step_paths, p) == lookup(entry(self._step_paths), p)))"]}})
